@@ -180,3 +180,69 @@ func c16ContainerClasses(c *core.Check) {
 		r.Anchor("disjunctions naming FlexContainerT")
 	}
 }
+
+// c16ClearedIsTested (R12): the background propagated to the canvas is removed from the box it was taken from
+// (CSS 2.1 §14.2: the body's background, when the root has none, is painted on the canvas *instead of* on the
+// body).  Structurally: where a branch is guarded by `x.F != nil` and clears the field F of a box of the same type,
+// the box cleared is x — not the root box when x is the body, or the background is painted twice, the second
+// time over the negative z-index children.
+func c16ClearedIsTested(c *core.Check) {
+	p := c.Prog
+	r := c.Rule("R12", "cleared is tested: in html/layout, a branch guarded by `x.F != nil` that stores nil into the field F of a struct of the same type stores it into x (layoutBackgrounds removes the propagated background from the box it chose, which is the body when the root has none)", 1)
+	n := 0
+	for _, fn := range p.FuncsOfPkg("html/layout") {
+		if fn.Blocks == nil {
+			continue
+		}
+		k := 0
+		for _, b := range fn.Blocks {
+			if len(b.Instrs) == 0 {
+				continue
+			}
+			ifi, ok := b.Instrs[len(b.Instrs)-1].(*ssa.If)
+			if !ok {
+				continue
+			}
+			bo, ok := ifi.Cond.(*ssa.BinOp)
+			if !ok || bo.Op != token.NEQ {
+				continue
+			}
+			if kk, ok := bo.Y.(*ssa.Const); !ok || !kk.IsNil() {
+				continue
+			}
+			ld, ok := bo.X.(*ssa.UnOp)
+			if !ok || ld.Op != token.MUL {
+				continue
+			}
+			fa, ok := ld.X.(*ssa.FieldAddr)
+			if !ok {
+				continue
+			}
+			side := b.Succs[0]
+			core.Instrs(fn, func(in ssa.Instruction) {
+				if !(in.Block() == side || side.Dominates(in.Block())) {
+					return
+				}
+				st, ok := in.(*ssa.Store)
+				if !ok {
+					return
+				}
+				kk, ok := st.Val.(*ssa.Const)
+				if !ok || !kk.IsNil() {
+					return
+				}
+				fa2, ok := st.Addr.(*ssa.FieldAddr)
+				if !ok || fa2.Field != fa.Field || fa2.X.Type().String() != fa.X.Type().String() {
+					return
+				}
+				n++
+				k++
+				key := fmt.Sprintf("%s | %s cleared under a test of %s #%d", core.FuncName(fn), core.FieldName(fa2), core.FieldName(fa), k)
+				r.Cond(valueText(fa2.X) == valueText(fa.X), key, p.Pos(st.Pos()), "the struct cleared is the one tested", "the field is cleared on another struct than the one whose field was tested: the tested one keeps its value (the body keeps the background that was moved to the canvas and paints it again)")
+			})
+		}
+	}
+	if n == 0 {
+		r.Unknown("html/layout | cleared fields", "-", "no field cleared under a test of the same field")
+	}
+}
